@@ -20,6 +20,7 @@ FREQ = 1e6
 EP_IN = 1
 MAX_PKT = 32
 POOL = 6
+MAX_RECORDS = 1200
 
 
 def _cfg(name):
@@ -385,6 +386,15 @@ def sc_bulk(rng, quick):
                                                            ("tp", dict(sub="ack", ep=EP_IN, seq=1, nump=0))]
         s += [ack0(0, 1), ("wait_dev", 1), ack0(1, 0), STATUS0, ("wait_dev", 1), ("quiet",)]
         out.append(("control-during-bulk+%d" % d, s))
+    # an IN request for the bulk endpoint between the stages of a control transfer (each endpoint answers only its own)
+    data = [rng.getrandbits(8) for _ in range(clean_len(rng, 1))]
+    s = bringup() + enumerate_device(11, short=True) + [("feed", data, True), ("wait_feed",), ("wait", 6),
+                                                        ("setup", GET_DESC(1, 0, 18)), ("wait_dev", 1),
+                                                        ("tp", dict(sub="ack", ep=EP_IN, seq=0, nump=1)), ("wait_dev", 1),
+                                                        ("tp", dict(sub="ack", ep=EP_IN, seq=1, nump=0)),
+                                                        ("wait", 60), ("quiet",), ack0(0, 1), ("wait_dev", 1),
+                                                        ack0(1, 0), STATUS0, ("wait_dev", 1), ("quiet",)]
+    out.append(("bulk-request-inside-control-transfer", s))
     return out
 
 
@@ -741,6 +751,11 @@ def _run(rep, prop, families, mc_names, sim_from=None, extra_assume=()):
         meta = {"family": fam, "scenario": name, "class": cls, "seed": job[1], "cycles": info["cycles"], "_script": script}
         if info.get("aborted"):
             raise tlc.TLCError("scenario %s did not finish within the cycle budget" % name)
+        if len(ev) > MAX_RECORDS:
+            # a run-away execution (e.g. a device that keeps emitting packets): the prefix is still a real execution, and the
+            # first rejected step lies in it; keeps the TLC batch bounded
+            ev = ev[:MAX_RECORDS]
+            meta["truncated"] = True
         items.append((ev, meta))
         cycles += info["cycles"]
         for r in ev:
